@@ -831,10 +831,13 @@ class Fx(object):
                 env["tot:" + name] = self.fexpr(ctx, env, init["c"][1])
             return
         if t and t.get("k") in ("int", "bool", "enum") and var in ctx.assigned:
+            if v.get("c"):
+                self.effects(ctx, v["c"][0], env, direct_only=True)
             env["v:" + var] = self.fexpr(ctx, env, v["c"][0]) if v.get("c") else Form()
             return
         if t and t.get("k") in ("int", "bool", "enum") and v.get("c"):
             # single-assignment integer local: keep its form so that later uses see the summary, not text
+            self.effects(ctx, v["c"][0], env, direct_only=True)
             f = self.fexpr(ctx, env, v["c"][0])
             env["v:" + var] = f
             return
@@ -887,8 +890,18 @@ class Fx(object):
         self.effects(ctx, s0, env)
 
     # ---- stream effects of an expression
-    def effects(self, ctx, e, env):
+    def effects(self, ctx, e, env, direct_only=False):
         for x in self.calls_in_order(e):
+            if direct_only:
+                # only operations on a cursor itself; helper calls are summarised by call_form when their value is used
+                if x["k"] != "CXXMemberCallExpr":
+                    continue
+                me = x["c"][0]
+                while me["k"] in ("ParenExpr", "ImplicitCastExpr"):
+                    me = me["c"][0]
+                obj = strip(me["c"][0]) if me.get("c") else None
+                if obj is None or obj["k"] != "DeclRefExpr" or obj.get("var") not in ctx.streams:
+                    continue
             self.call_effect(ctx, x, env)
 
     def calls_in_order(self, e):
@@ -983,7 +996,7 @@ class Fx(object):
             if sz is None:
                 raise Opaque("read of a value of unknown size")
             amt = const(sz)
-            self.oplog.append((name, "read", None, amt, n.get("l")))
+            self.oplog.append((name, "read", None, amt, n.get("l"), op, None, "int" if (rt or {}).get("k") in ("int", "enum") else "bytes"))
             self.advance(name, amt, env)
             return
         if op == "read" and len(args) == 2:
@@ -1008,7 +1021,9 @@ class Fx(object):
                     raise Opaque("write of a value of unknown size (%s)" % (t or {}).get("s"))
                 amt = const(sz)
                 env["last:" + name] = (ctx, args[0], sz)
-                self.oplog.append((name, "read" if op == "read" else "write", self.txt(ctx, args[0]), amt, n.get("l")))
+                vt = t or {}
+                self.oplog.append((name, "read" if op == "read" else "write", self.txt(ctx, args[0]), amt, n.get("l"), op, facts.cval(args[0]),
+                                   "int" if vt.get("k") in ("int", "enum") else "bytes"))
             elif len(args) == 2:
                 a0, a1 = self.txt(ctx, args[0]), self.txt(ctx, args[1])
                 t1 = facts.ty(ctx.f, args[1]) or {}
